@@ -289,6 +289,10 @@ func vfC04Finish(s *Serf, d *delegate, a []byte) {
 // status times for up to 2 of the given names, optionally one of them listed as
 // left, optionally one recorded user event, symbolic clocks.
 func vfArbPushPull(names []string) ([]byte, *messagePushPull) {
+	return vfArbPushPullParts(names, true)
+}
+
+func vfArbPushPullParts(names []string, withEvents bool) ([]byte, *messagePushPull) {
 	pp := &messagePushPull{
 		LTime:        LamportTime(vfU64("ppclock") >> 2),
 		StatusLTimes: map[string]LamportTime{},
@@ -303,7 +307,7 @@ func vfArbPushPull(names []string) ([]byte, *messagePushPull) {
 			}
 		}
 	}
-	if vfBool("ppEvent") {
+	if withEvents && vfBool("ppEvent") {
 		pp.Events = []*userEvents{nil, {LTime: LamportTime(vfU64("ppet") >> 2), Events: []userEvent{{Name: string(vfFixedBytes("ppen", 1)), Payload: vfFixedBytes("ppep", 1)}}}}
 	}
 	b, _ := encodeMessage(messagePushPullType, pp, false)
